@@ -30,7 +30,11 @@
    * pre-vote messages and check-quorum/lease only ever make the code refuse something the rules
      allow, so they need no rule;
    * a crash may lose any part of the local state that the node has not promised to keep
-     (promises_kept): this is the persist-before-send obligation of the Ready contract. *)
+     (promises_kept): this is the persist-before-send obligation of the Ready contract;
+   * the trace driver hands the logs to the abstract side WITHOUT the StartNode bootstrap entries
+     (identical term-1 conf-change entries every member generates locally; the driver checks that
+     every recorded log starts with them and shifts indexes), i.e. it uses init cf []; the general
+     init cf log0 below keeps a committed bootstrap log inside the abstract state. *)
 From Coq Require Import List Arith Bool NArith.
 From ZV Require Import RaftAbs.ListFacts.
 Import ListNotations.
